@@ -451,6 +451,9 @@ class BaseWorklist(list):
 
         src_parameters = f"{src_rack_label};{src_rack_id};{src_rack_type};{src_start};{src_end}"
         dst_parameters = f"{dst_rack_label};{dst_rack_id};{dst_rack_type};{dst_start};{dst_end}"
+        if isinstance(volume, (float, numpy.floating)):
+            # plain decimal notation: very small floats would otherwise be written as 6.1e-05
+            volume = numpy.format_float_positional(volume, trim="0")
         self.append(
             f"R;{src_parameters};{dst_parameters};{volume};{liquid_class};{diti_reuse};{multi_disp};{direction_i}{exclude_str}"
         )
